@@ -96,6 +96,14 @@ type Proc struct {
 	exit   int
 }
 
+// Pid returns the process id of the launched command (the victim itself in Plain mode).
+func (p *Proc) Pid() int {
+	if p == nil || p.cmd == nil || p.cmd.Process == nil {
+		return 0
+	}
+	return p.cmd.Process.Pid
+}
+
 // StartVictim starts `self victim-c03 <cfg>` according to l and waits for its
 // "ok open" line. alive=false means it died (was killed) before that.
 func StartVictim(cfg VictimCfg, l Launch) (p *Proc, alive bool, err error) {
@@ -440,6 +448,7 @@ type World struct {
 	K    int64
 	Logf func(string, ...any)
 
+	LockProbes int // lockprobe steps executed
 	// Inject is set by the step "inject <expr>" and consumed by the next traced start
 	// (see Launch.Inject).
 	Inject string
@@ -769,6 +778,53 @@ func (w *World) Run(steps []Step, from int) (int, error) {
 				return i, ErrVictimGone
 			}
 			w.Logf("MaxSyncWALBytes = %d (%d x %d bytes per transaction) -> %s", n, k, w.LastWALGrowth, reply)
+		case "appclose":
+			// the application closes its last connection (SQLite then tries to take the
+			// exclusive lock on the database file, checkpoint and delete -wal/-shm; a litestream
+			// process that has the database open prevents that with its shared lock)
+			if w.App != nil {
+				_ = w.App.Close()
+				w.App = nil
+			}
+			w.Logf("application closed its last connection")
+		case "appopen":
+			if w.App == nil {
+				app, err := sq.Open(w.VC.DBPath(), 50, 0, 1)
+				if err != nil {
+					return i, err
+				}
+				w.App = app
+				var k int64
+				if err := w.App.QueryRow(`SELECT max(k) FROM ledger`).Scan(&k); err != nil {
+					return i, &OracleError{Key: "source-unreadable-after-reconnect", Msg: fmt.Sprintf("the application cannot read its database after reconnecting: %v", err)}
+				}
+				if k != w.K {
+					return i, &OracleError{Key: "source-lost-application-commits", Msg: fmt.Sprintf("after the application reconnected its database holds ledger k=%d, the last commit that returned was k=%d", k, w.K)}
+				}
+				w.Logf("application reconnected (k=%d)", k)
+			}
+		case "lockprobe":
+			// lockprobe held|free: asks the kernel from a third process (bin/lockprobe, F_GETLK)
+			// who holds SQLite's shared lock on the database file. Only meaningful while the
+			// application (this process) has no connection.
+			if w.App != nil {
+				return i, fmt.Errorf("lockprobe with the application connected")
+			}
+			out, err := exec.Command(filepath.Join(vf.Root, "bin", "lockprobe"), w.VC.DBPath()).Output()
+			if err != nil {
+				return i, fmt.Errorf("lockprobe: %v", err)
+			}
+			ans := strings.TrimSpace(string(out))
+			w.Logf("lockprobe -> %s (expected %s)", ans, s.Arg)
+			w.LockProbes++
+			switch {
+			case s.Arg == "held" && ans == "free":
+				return i, &OracleError{Key: "source-lock-dropped", Msg: "the litestream process has the database open, but no process holds SQLite's shared lock on the database file any more: a descriptor on the database file was closed inside the litestream process, which drops every POSIX lock it held there; an application closing its last connection now checkpoints and deletes the -wal/-shm files under litestream"}
+			case s.Arg == "held" && w.P != nil && ans != fmt.Sprintf("held %d", w.P.Pid()):
+				return i, fmt.Errorf("lockprobe: lock held by %q, victim pid is %d", ans, w.P.Pid())
+			case s.Arg == "free" && ans != "free":
+				return i, &OracleError{Key: "source-lock-leaked", Msg: fmt.Sprintf("litestream has closed the database but a process still holds SQLite's shared lock on the database file (%s)", ans)}
+			}
 		case "inject":
 			w.Inject = s.Arg
 		case "plantv3":
